@@ -22,18 +22,20 @@ Rev16(x) == Rev8(x % 256) * 256 + Rev8(x \div 256)
 (* reverse the low n bits of x (n <= 16) *)
 RevBits(x, n) == FoldLeft(LAMBDA acc, i : acc * 2 + Bit(x, i), 0, Range0(n))
 
-(* 16-bit-limb words, least significant limb first *)
-LimbXor(a, b) == [i \in 1..Len(a) |-> a[i] ^^ b[i]]
-LimbNot(a) == [i \in 1..Len(a) |-> 65535 - a[i]]
+(* 16-bit-limb words, least significant limb first.  Every result is forced with TLCEval: TLC's
+   function constructors are lazy and unmemoised, so chained limb operations would otherwise be
+   re-evaluated exponentially often. *)
+LimbXor(a, b) == TLCEval([i \in 1..Len(a) |-> a[i] ^^ b[i]])
+LimbNot(a) == TLCEval([i \in 1..Len(a) |-> 65535 - a[i]])
 LimbZero(n) == [i \in 1..n |-> 0]
 LimbOnes(n) == [i \in 1..n |-> 65535]
 (* shift right by 8 bits *)
-LimbShr8(a) == [i \in 1..Len(a) |-> (a[i] \div 256) + (IF i < Len(a) THEN (a[i+1] % 256) * 256 ELSE 0)]
+LimbShr8(a) == TLCEval([i \in 1..Len(a) |-> (a[i] \div 256) + (IF i < Len(a) THEN (a[i+1] % 256) * 256 ELSE 0)])
 (* shift left by 8 bits, dropping overflow *)
-LimbShl8(a) == [i \in 1..Len(a) |-> ((a[i] % 256) * 256) + (IF i > 1 THEN a[i-1] \div 256 ELSE 0)]
+LimbShl8(a) == TLCEval([i \in 1..Len(a) |-> ((a[i] % 256) * 256) + (IF i > 1 THEN a[i-1] \div 256 ELSE 0)])
 (* shift right by one bit *)
-LimbShr1(a) == [i \in 1..Len(a) |-> (a[i] \div 2) + (IF i < Len(a) THEN (a[i+1] % 2) * 32768 ELSE 0)]
-LimbShl1(a) == [i \in 1..Len(a) |-> ((a[i] % 32768) * 2) + (IF i > 1 THEN a[i-1] \div 32768 ELSE 0)]
+LimbShr1(a) == TLCEval([i \in 1..Len(a) |-> (a[i] \div 2) + (IF i < Len(a) THEN (a[i+1] % 2) * 32768 ELSE 0)])
+LimbShl1(a) == TLCEval([i \in 1..Len(a) |-> ((a[i] % 32768) * 2) + (IF i > 1 THEN a[i-1] \div 32768 ELSE 0)])
 LimbLowByte(a) == a[1] % 256
 LimbHighByte(a) == a[Len(a)] \div 256
 LimbLowBit(a) == a[1] % 2
